@@ -326,7 +326,7 @@ func RunSimEnv(binary string, sc *Scenario, workDir string, gomaxprocs string) *
 	}
 	ctx, cancel := context.WithTimeout(context.Background(), watchdog)
 	defer cancel()
-	cmd := exec.CommandContext(ctx, binary, sc.Argv...)
+	cmd := limitedCommand(ctx, binary, sc.Argv)
 	cmd.Dir = cwd
 	cmd.Env = []string{"VERIF_SIM=" + scPath, "GOMAXPROCS=" + gomaxprocs, "GOTRACEBACK=single", "PATH=/usr/bin:/bin"}
 	var so, se capWriter
@@ -408,7 +408,7 @@ func RunReal(binary string, sc *Scenario, workDir string) *RealResult {
 	}
 	ctx, cancel := context.WithTimeout(context.Background(), watchdog)
 	defer cancel()
-	cmd := exec.CommandContext(ctx, binary, sc.Argv...)
+	cmd := limitedCommand(ctx, binary, sc.Argv)
 	cmd.Dir = dir
 	cmd.Env = []string{"GOTRACEBACK=single", "PATH=/usr/bin:/bin"}
 	var so, se capWriter
@@ -467,4 +467,14 @@ func saveScenario(path string, sc *Scenario) {
 	if err := os.WriteFile(path, append(b, '\n'), 0644); err != nil {
 		harnessFail("write replay: %v", err)
 	}
+}
+
+// childMemKB bounds the address space of every child (ulimit -v): the sandbox has no memory limit of its own and
+// an input that makes fc allocate exponentially must end as the child's "out of memory" fatal error, not as the
+// kernel's OOM killer picking a victim.
+const childMemKB = 6 * 1024 * 1024
+
+func limitedCommand(ctx context.Context, binary string, argv []string) *exec.Cmd {
+	args := append([]string{"-c", fmt.Sprintf("ulimit -v %d; exec \"$0\" \"$@\"", childMemKB), binary}, argv...)
+	return exec.CommandContext(ctx, "/bin/sh", args...)
 }
